@@ -62,38 +62,39 @@ def main():
     theorems, obligations, discharged = [], 0, 0
     build_tail = None
     try:
-        gen_lean.generate_all(ctx)
-        for gf in ctx.extra.get("generator_failures", []):
-            broken.append("generator failed (facts could not be re-read from /repo): " + gf)
-        if not args.no_build:
-            drivers = ["Driver." + d for d in getattr(mod, "DRIVERS", [])]
-            ok, log = common.lake_build(["FlexModel.Audit"] + drivers)
-            if not ok:
-                ctx.model_ok = False
-                broken.append("lake build " + " ".join(drivers) + " (model no longer builds against Generated/*)")
-                build_tail = log[-3000:]
-            ok, log = common.lake_build(lean_modules)
-            if not ok:
-                broken.append("lake build " + " ".join(lean_modules) + " (a theorem / generated side condition no longer checks)")
-                build_tail = log[-3000:]
-                for line in log.split("\n"):
-                    if "error" in line and ".lean:" in line:
-                        broken.append(line.strip()[:300])
-            hits = common.forbidden_scan(lean_modules + drivers)
-            if hits:
-                broken.append("forbidden tokens in lean sources: " + "; ".join(hits[:5]))
-            if ok:
-                for m in lean_modules:
-                    for name, axs in common.audit_module(m):
-                        good = set(axs) <= common.ALLOWED_AXIOMS
-                        theorems.append({"theorem": name, "axioms": axs, "ok": good})
-                        obligations += 1
-                        discharged += 1 if good else 0
-                        if not good:
-                            broken.append(f"theorem {name} depends on non-allowed axioms {axs}")
-            else:
-                obligations = max(1, len(getattr(mod, "EXPECTED_THEOREMS", [])) or 1)
-                discharged = 0
+        with common.BuildLock():
+            gen_lean.generate_all(ctx)
+            for gf in ctx.extra.get("generator_failures", []):
+                broken.append("generator failed (facts could not be re-read from /repo): " + gf)
+            if not args.no_build:
+                drivers = ["Driver." + d for d in getattr(mod, "DRIVERS", [])]
+                ok, log = common.lake_build(["FlexModel.Audit"] + drivers)
+                if not ok:
+                    ctx.model_ok = False
+                    broken.append("lake build " + " ".join(drivers) + " (model no longer builds against Generated/*)")
+                    build_tail = log[-3000:]
+                ok, log = common.lake_build(lean_modules)
+                if not ok:
+                    broken.append("lake build " + " ".join(lean_modules) + " (a theorem / generated side condition no longer checks)")
+                    build_tail = log[-3000:]
+                    for line in log.split("\n"):
+                        if "error" in line and ".lean:" in line:
+                            broken.append(line.strip()[:300])
+                hits = common.forbidden_scan(lean_modules + drivers)
+                if hits:
+                    broken.append("forbidden tokens in lean sources: " + "; ".join(hits[:5]))
+                if ok:
+                    for m in lean_modules:
+                        for name, axs in common.audit_module(m):
+                            good = set(axs) <= common.ALLOWED_AXIOMS
+                            theorems.append({"theorem": name, "axioms": axs, "ok": good})
+                            obligations += 1
+                            discharged += 1 if good else 0
+                            if not good:
+                                broken.append(f"theorem {name} depends on non-allowed axioms {axs}")
+                else:
+                    obligations = max(1, len(getattr(mod, "EXPECTED_THEOREMS", [])) or 1)
+                    discharged = 0
         # known-finding bookkeeping, corpus, correspondence, oracle
         mod.run(ctx)
         if (broken or ctx.mismatches) and not ctx.violations and hasattr(mod, "search"):
